@@ -119,3 +119,29 @@ func VH_C01_no_store() {
 	vReach("rejected", err != nil)
 	vAssert("C01,C02,C04.without-a-certificate-store-nothing-is-accepted", err != nil)
 }
+
+// VH_C01_results_isolated: a Response (unsigned envelope, individually signed assertion) is accepted and handed to
+// the caller; whatever the SP validates next — accepted or not — the first result still carries exactly the
+// assertion the IdP signed in the first message.
+func VH_C01_results_isolated() {
+	sp := vhOrchSP(false)
+	mk := func(p string) (*vhA, string) {
+		s := &vhScenario{rootSig: vhSigNone}
+		s.root = vhResponseRoot(s, "samlp:Response")
+		a := vhAssertionEl(p, vhSigValid)
+		vAssume(a.ID != s.ID)
+		s.root.AddChild(a.el)
+		return a, vEncodeDoc("wire."+p, s.root, 0)
+	}
+	a1, enc1 := mk("c0")
+	resp1, err1 := sp.ValidateEncodedResponse(enc1)
+	vDebugErr("first", err1)
+	if err1 != nil || resp1 == nil || len(resp1.Assertions) != 1 {
+		return
+	}
+	_, enc2 := mk("d0")
+	_, err2 := sp.ValidateEncodedResponse(enc2)
+	vDebugErr("second", err2)
+	vReach("second-validated", true)
+	vAssert("C01,C04,C08,C17.an-accepted-result-is-not-changed-by-a-later-call", len(resp1.Assertions) == 1 && vhSameAssertion(&resp1.Assertions[0], a1))
+}
